@@ -583,3 +583,8 @@ Fixpoint iso_ok (parse_all : bool) (c : N) (s : srv808) (evs : list sev) : bool 
      match e with Data _ _ _ => false | _ => true end) &&
     iso_ok parse_all c (step808 parse_all s e) t
   end.
+
+(* the events of one connection only *)
+Definition only (c : N) (evs : list sev) : list sev := filter (fun e => ev_conn e =? c) evs.
+Definition no_reconnect (c : N) (evs : list sev) : bool :=
+  forallb (fun e => match e with Connect c0 => negb (c0 =? c) | _ => true end) evs.
